@@ -114,7 +114,8 @@ class Agg:
 
 
 def run_items(engine, prop, tier, seed, n_items, jobs, wall_cap, stop_on_violation=True, keep="samples", start=0):
-    chunk = max(1, getattr(engine, "CHUNK", 8))
+    chunk = max(1, getattr(engine, "CHUNKS", {}).get(prop, getattr(engine, "CHUNK", 8)))
+    case_timeout = getattr(engine, "CASE_TIMEOUTS", {}).get(prop, engine.CASE_TIMEOUT)
     idx_chunks = [list(range(a, min(a + chunk, start + n_items))) for a in range(start, start + n_items, chunk)]
     if keep == "all":
         keep_cases = "all"
@@ -135,7 +136,7 @@ def run_items(engine, prop, tier, seed, n_items, jobs, wall_cap, stop_on_violati
         if stop_on_violation and unknown[0] >= 24:
             return "stop"
 
-    timeout = engine.CASE_TIMEOUT * chunk + 30
+    timeout = case_timeout * chunk + 30
     results, done = isolate.map_isolated(
         _chunk_worker, args, jobs=jobs, timeout=timeout, wall_cap=wall_cap, on_result=on_result
     )
